@@ -376,6 +376,43 @@ def one_line_stable(pydoc, smart):
     return None
 
 
+def _has_align(d):
+    k = d[0]
+    if k in ('align', 'hang'):
+        return True
+    if k in ('cat', 'fill'):
+        return any(_has_align(x) for x in d[1])
+    if k in ('group', 'ab'):
+        return _has_align(d[1])
+    if k in ('nest', 'ann'):
+        return _has_align(d[2])
+    if k == 'choice':
+        return _has_align(d[1]) or _has_align(d[2])
+    return False
+
+
+def decision_monotone(pydoc, rest, smart):
+    """C06 oracle at the level of the decision (theorems C06.fits_mono_smart / fits_mono_fast, evaluated on the implementation's own
+    predicates): in one state — the group's content in flat mode on top of `rest` in break mode — a predicate that accepts with page width w
+    and budget a accepts with every w' >= w and a' >= a.  Returns None or the pair of calls that contradicts it."""
+    L = _sys.modules['prettyprinter.layout']
+    D = _sys.modules['prettyprinter.doctypes']
+    pred = L.smart_fitting_predicate if smart else L.fast_fitting_predicate
+    nd = D.normalize_doc(pydoc)
+    nr = D.normalize_doc(rest)
+    for indent in (0, 2):
+        for mn in (0, indent):
+            prev = None
+            for (w, a) in ((2, 0), (3, 1), (4, 2), (5, 4), (6, 4), (8, 7), (10, 7), (12, 12), (20, 15), (30, 30), (60, 60)):
+                ok = bool(pred(page_width=w, ribbon_frac=1.0, min_nesting_level=mn, max_width=a,
+                               triplestack=[(0, L.BREAK_MODE, nr), (indent, L.FLAT_MODE, nd)]))
+                if prev is not None and prev[0] and not ok:
+                    return {'accepted_at': {'page_width': prev[1], 'budget': prev[2]}, 'rejected_at': {'page_width': w, 'budget': a},
+                            'indent': indent, 'min_nesting_level': mn}
+                prev = (ok, w, a)
+    return None
+
+
 def _has_negative_nest(d):
     k = d[0]
     if k in ('nest', 'hang'):
@@ -396,6 +433,7 @@ def oracle_chunk(args):
     fails = []
     n = 0
     nt = 0
+    prev_py = prev_d = None
     for d in docs:
         try:
             py = to_py_shared(d, {})
@@ -427,6 +465,17 @@ def oracle_chunk(args):
                 if r is not None:
                     fails.append({'kind': 'engine-one-line-unstable', 'doc': d, 'smart': smart, 'detail': r})
                     break
+                if smart and _has_align(d):
+                    continue            # the smart look-ahead evaluates align at the column it has in mind: outside fits_mono_smart
+                try:
+                    r = decision_monotone(py, prev_py if prev_py is not None else py, smart)
+                except Exception as e:
+                    r = {'raises': '%s: %s' % (type(e).__name__, e)}
+                if r is not None:
+                    fails.append({'kind': 'engine-decision-not-monotone', 'doc': d, 'rest': prev_d, 'smart': smart, 'detail': r})
+                    break
+            if not _has_align(d):
+                prev_py, prev_d = py, d
             nt += 1
     return n, nt, fails
 
